@@ -290,6 +290,20 @@ pub fn late_reporter_probe() -> Vec<Finding> {
         hit();
         ("k", "v")
     });
+    // an unsampled root created before the reporter exists is not recording either
+    let unsampled = Span::root("early.u", SpanContext::new(TraceId(0xF), SpanId(1)).sampled(false)).with_property(|| {
+        hit();
+        ("k", "v")
+    });
+    let unsampled_child = Span::enter_with_parent("early.uc", &unsampled).with_property(|| {
+        hit();
+        ("k", "v")
+    });
+    if SpanContext::from_span(&unsampled).is_some() || unsampled.elapsed().is_some() || SpanContext::from_span(&unsampled_child).is_some() {
+        out.push(Finding { rule: "ctx".into(), what: "an unsampled root created before the reporter existed is recording".into(), detail: String::new() });
+    }
+    drop(unsampled_child);
+    drop(unsampled);
     let child = Span::enter_with_parent("early.c", &root).with_properties(|| {
         hit();
         [("k", "v")]
